@@ -60,7 +60,8 @@ REAL_STUB = {
 
 OPEN_KINDS = ["open-enoent", "open-http-404", "open-timeout", "open-refused",
               "open-eacces", "open-http-500", "open-oserror"]
-READ_KINDS = ["read-eio", "read-truncated", "read-reset", "read-timeout"]
+READ_KINDS = ["read-eio", "read-truncated", "read-reset", "read-timeout",
+              "read-memoryerror", "read-valueerror"]
 
 
 def generate(rng, tier, index):
@@ -181,13 +182,14 @@ def failure_points(plan, recon):
                  OPEN_KINDS[(rot + j + 3) % len(OPEN_KINDS)]]
         for k in kinds:
             pts.append({"faults": [{"seam": "open", "at": j, "kind": k}]})
-        rk = READ_KINDS[(rot + j) % len(READ_KINDS)]
-        if rk == "read-truncated":
-            if url.startswith("http:"):
-                pts.append({"faults": [{"seam": "open", "at": j,
-                                        "kind": "read-truncated"}]})
-            rk = "read-eio"
-        pts.append({"faults": [{"seam": "read", "at": j, "kind": rk}]})
+        for d in (0, 4):
+            rk = READ_KINDS[(rot + j + d) % len(READ_KINDS)]
+            if rk == "read-truncated":
+                if url.startswith("http:"):
+                    pts.append({"faults": [{"seam": "open", "at": j,
+                                            "kind": "read-truncated"}]})
+                rk = "read-eio"
+            pts.append({"faults": [{"seam": "read", "at": j, "kind": rk}]})
     for j in range(recon["n_getdata"]):
         pts.append({"faults": [{"seam": "getdata", "at": j,
                                 "kind": "pkg-get-data-eio"}]})
